@@ -55,6 +55,10 @@ impl Policy for StubPolicy {
     fn uninstall(_e: &Env, _r: ContextRule, _a: Address) {}
 }
 
+mod edv {
+    #[path = "/repo/examples/multisig-smart-account/ed25519-verifier/src/contract.rs"]
+    pub mod c;
+}
 // ---- stub verifier: a signature is genuine iff sig == key ‖ payload
 #[contract]
 pub struct StubVerifier;
@@ -127,6 +131,10 @@ pub struct Cfg {
     /// the verifier reports a bad signature by trapping (as ed25519 does) instead of returning false
     #[serde(default)]
     pub verifier_traps: bool,
+    /// external signers are verified by examples/multisig-smart-account/ed25519-verifier (library verifiers::ed25519) with
+    /// genuine ed25519 keys and signatures instead of the stub verifier
+    #[serde(default)]
+    pub real_ed25519: bool,
 }
 const ADMIN: SRef = SRef::Ext(99);
 const NAMES: [&str; 5] = ["r", "renamed-a", "renamed-b", "renamed-c", "multisig"];
@@ -316,7 +324,7 @@ impl Check for SmartAccount {
         }
     }
     fn components(&self) -> serde_json::Value {
-        serde_json::json!({"real": ["examples/multisig-smart-account/account (from source)", "smart_account::{do_check_auth, authenticate, get_valid_context_rules, get_validated_context, rule management}", "PolicyClient / VerifierClient call paths"], "stub": ["StubPolicy (scripted can_enforce / enforce trap, call log)", "StubVerifier (sig == key‖payload)", "Wallet for delegated signers"]})
+        serde_json::json!({"real": ["examples/multisig-smart-account/account (from source)", "smart_account::{do_check_auth, authenticate, get_valid_context_rules, get_validated_context, rule management}", "PolicyClient / VerifierClient call paths"], "stub": ["StubPolicy (scripted can_enforce / enforce trap, call log)", "StubVerifier (sig == key‖payload; answers false or traps) in two thirds of the runs — the other third uses examples/multisig-smart-account/ed25519-verifier (library verifiers::ed25519, host ed25519_verify) with genuine keys", "Wallet for delegated signers"]})
     }
     fn clock_step(&self, n: u32) -> Option<Step> {
         Some(Step::Advance { n })
@@ -328,7 +336,7 @@ impl Check for SmartAccount {
         true
     }
     fn probes(&self, _prop: &str) -> std::vec::Vec<&'static str> {
-        vec!["probe.accepted", "probe.rejected", "probe.max_context_rules_reached", "probe.max_signers_reached", "probe.max_policies_reached"]
+        vec!["probe.accepted", "probe.rejected", "probe.run_with_real_ed25519_verifier", "probe.run_with_stub_verifier", "probe.max_context_rules_reached", "probe.max_signers_reached", "probe.max_policies_reached"]
     }
     fn property_of(&self, check: &str) -> std::vec::Vec<&'static str> {
         if check.starts_with("rules.manage_") {
@@ -342,7 +350,7 @@ impl Check for SmartAccount {
         }
     }
     fn generate(&self, rng: &mut Rng, tier: Tier) -> (Cfg, std::vec::Vec<Step>) {
-        let cfg = Cfg { start_ledger: 1 + rng.below(100_000) as u32, actors: 3, verifier_traps: rng.chance(50) };
+        let cfg = Cfg { start_ledger: 1 + rng.below(100_000) as u32, actors: 3, verifier_traps: rng.chance(50), real_ed25519: rng.chance(34) };
         let nsteps = if tier == Tier::Quick { 30 + rng.below(40) } else { 30 + rng.below(80) } as usize;
         let mut m = Model { now: cfg.start_ledger, next_id: 1, ..Default::default() };
         m.rules.push(Rule { name: 4, id: 0, ctype: CType::Default, until: None, signers: vec![ADMIN], policies: vec![] });
@@ -542,17 +550,31 @@ impl Check for SmartAccount {
     fn execute(&self, cfg: &Cfg, steps: &[Step], st: &mut Stats) -> Result<(), Violation> {
         let w = W::new(cfg.actors, cfg.start_ledger, 16);
         let e = &w.e;
-        let ver = e.register(StubVerifier, ());
-        if cfg.verifier_traps {
+        let ver = if cfg.real_ed25519 { e.register(edv::c::Ed25519VerifierContract, ()) } else { e.register(StubVerifier, ()) };
+        if cfg.verifier_traps && !cfg.real_ed25519 {
             StubVerifierClient::new(e, &ver).set_trapping(&true);
         }
+        st.hit(if cfg.real_ed25519 { "probe.run_with_real_ed25519_verifier" } else { "probe.run_with_stub_verifier" });
+        let sk = |k: u8| ed25519_dalek::SigningKey::from_bytes(&[k.wrapping_add(1); 32]);
         let pols: std::vec::Vec<Address> = (0..N_POL).map(|k| {
             let p = e.register(StubPolicy, ());
             StubPolicyClient::new(e, &p).set_tag(&(k as u32));
             p
         }).collect();
         let targets: std::vec::Vec<Address> = (0..3).map(|_| <Address as soroban_sdk::testutils::Address>::generate(e)).collect();
-        let key = |k: u8| Bytes::from_array(e, &[k; 8]);
+        let key = |k: u8| if cfg.real_ed25519 { Bytes::from_array(e, &sk(k).verifying_key().to_bytes()) } else { Bytes::from_array(e, &[k; 8]) };
+        // signature data of external signer k over `payload` (a bad one is a well-formed signature over other bytes)
+        let sig_of = |k: u8, payload: &[u8; 32], genuine: bool| -> Bytes {
+            let signed: [u8; 32] = if genuine { *payload } else { [0xEE; 32] };
+            if cfg.real_ed25519 {
+                use ed25519_dalek::Signer as _;
+                Bytes::from_array(e, &sk(k).sign(&signed).to_bytes())
+            } else {
+                let mut sig = Bytes::from_array(e, &[k; 8]);
+                sig.append(&Bytes::from_array(e, &signed));
+                sig
+            }
+        };
         let signer = |s: SRef| match s {
             SRef::Ext(k) => Signer::External(ver.clone(), key(k)),
             SRef::Del(a) => Signer::Delegated(w.actors[a].clone()),
@@ -581,8 +603,7 @@ impl Check for SmartAccount {
             let exp = w.now() + 100;
             let x = inv.to_xdr(e);
             let p = w.payload(nonce, exp, &x);
-            let mut sig = key(99);
-            sig.append(&Bytes::from_array(e, &p));
+            let sig = sig_of(99, &p, true);
             let mut mp: Map<Signer, Bytes> = Map::new(e);
             mp.set(signer(ADMIN), sig);
             let sv: Val = Signatures(mp).into_val(e);
@@ -628,20 +649,15 @@ impl Check for SmartAccount {
                 Step::RemovePolicy { id, p } => Some(mgmt("remove_policy", (*id, pols[*p as usize].clone()).into_val(e))),
                 Step::Probe { supplied, contexts } => {
                     let payload = BytesN::<32>::from_array(e, &[(i % 250) as u8 + 1; 32]);
-                    let pb: Bytes = payload.clone().into();
                     let mut mp: Map<Signer, Bytes> = Map::new(e);
                     let mut wallet_entries = vec![];
                     for sp in supplied {
                         match sp.who {
                             SRef::Ext(k) => {
-                                let mut sig = key(k);
-                                if sp.genuine {
-                                    sig.append(&pb);
-                                } else {
-                                    sig.append(&Bytes::from_array(e, &[0xEE; 32]));
+                                if !sp.genuine {
                                     st.hit("fault.bad_signature");
                                 }
-                                mp.set(signer(sp.who), sig);
+                                mp.set(signer(sp.who), sig_of(k, &payload.to_array(), sp.genuine));
                             }
                             SRef::Del(a) => {
                                 mp.set(signer(sp.who), Bytes::new(e));
